@@ -160,7 +160,7 @@ for _p in (False, True):
         add_task(['C07', 'C04'], f'block_separable:WeightedGroupL2[positive={_p}].prox_1group[g={_g}]', wgl2_prox_task, strength='B',
                  tier=('thorough' if _g == 0 else 'quick'), positive=_p, g=_g)
     for _ws in ((1, 0), (0, 1), (1,)):
-        add_task('C08', f'block_separable:WeightedGroupL2[positive={_p}].subdiff_distance[ws={"".join(map(str, _ws))}]',
+        add_task(['C08', 'C20'], f'block_separable:WeightedGroupL2[positive={_p}].subdiff_distance[ws={"".join(map(str, _ws))}]',
                  wgl2_subdiff_task, strength='B', positive=_p, ws=_ws)
     add_task(['C01', 'C05'], f'block_separable:WeightedGroupL2[positive={_p}].generalized_support', wgl2_support_task, strength='B', positive=_p)
 
